@@ -50,6 +50,7 @@ type Contract struct {
 	Ensures   []*Clause
 	Modifies  []string
 	ModAll    bool
+	AllText   string   // every clause line of the contract (to see which ghosts it mentions)
 	ModAllBut []string // `modifies allbut T, ghost, bytes`: everything may change except these
 	HasMod    bool
 	LoopInv   map[int][]*Clause
@@ -126,6 +127,10 @@ type GhostFunc struct {
 	RetT   ast.Expr
 	Pkg    *types.Package
 	Field  bool // ghost field: a heap-like Int->Ret map indexed by an object reference
+	// Volatile ghost field ("observation register"): any call may change it without
+	// saying so -- it is exempt from frame checks and forgotten at every call that
+	// does not define it; it may not appear in a keep-list.
+	Volatile bool
 }
 
 func (c *Contract) nilable(name string, isRecv bool) bool {
@@ -216,6 +221,9 @@ func (e *Engine) loadContractFile(path string, pkg *types.Package) error {
 		}
 		fields := strings.Fields(text)
 		kw := fields[0]
+		if cur != nil {
+			cur.AllText += " " + text
+		}
 		rest := strings.TrimSpace(strings.TrimPrefix(text, kw))
 		fail := func(err error) error { return fmt.Errorf("%s:%d: %v", path, ln+1, err) }
 		switch {
@@ -269,6 +277,10 @@ func (e *Engine) loadContractFile(path string, pkg *types.Package) error {
 		case kw == "ghostfield":
 			// ghostfield NAME [sort]: per-object ghost state, read as NAME(obj)
 			g := &GhostFunc{Name: fields[1], Field: true, Ret: "Int"}
+			if len(fields) > 2 && fields[len(fields)-1] == "volatile" {
+				g.Volatile = true
+				fields = fields[:len(fields)-1]
+			}
 			if len(fields) > 2 {
 				g.Ret = ghostSort(&ast.Ident{Name: fields[2]})
 			}
@@ -826,6 +838,7 @@ func declNames(d *ast.FuncDecl) string {
 
 func mergeContracts(old, c *Contract) {
 	old.Header += " +merged(" + filepath.Base(c.File) + ")"
+	old.AllText += " " + c.AllText
 	old.Requires = append(old.Requires, c.Requires...)
 	old.Ensures = append(old.Ensures, c.Ensures...)
 	old.Defines = append(old.Defines, c.Defines...)
